@@ -1,8 +1,16 @@
 #!/usr/bin/env python3
-"""C05: every JSON text produced by asl's encoder must be accepted by python's strict json parser and denote the expected value.
-Input lines: <hex text> TAB <pattern>; pattern = n|t|f|#<number>|F<float32 bits>|s<hex utf8>|[p,...]|{<hexkey>:p,...}
-Prints 'BAD <hex text> <reason>' per failing case and 'checked <n> bad <m>'. Exit 0 iff m == 0."""
-import sys, json, binascii, struct
+"""C05: every JSON text produced by asl's encoder (strings and written files) must be accepted by python's strict json parser
+and denote the expected value.
+usage: ref_c05.py --list <file with one input file name per line> | ref_c05.py <input file>...
+Input lines: <hex text> TAB <pattern> TAB <E|S> TAB <case label>
+  pattern = n|t|f|#<int>|D<float64 bits>|F<float32 bits>|s<hex utf8>|[p,...]|{<hexkey>:p,...}
+  E: numbers exactly (doubles numerically equal, floats equal after rounding to float32)
+  S: reduced precision modes: doubles to 15, floats to 7 significant decimal digits (half a unit of the last kept digit)
+Prints 'BAD <case label> TAB <reason> text=<hex, truncated>' per failing text (at most 200) and 'checked <n> bad <m>'.
+Exit 0 iff m == 0. Any internal error ends the run without a 'checked' line (the harness treats that as a harness error)."""
+import sys, os, json, binascii, struct, math
+from decimal import Decimal
+from fractions import Fraction
 
 def fail(_): raise ValueError('non-finite constant')
 
@@ -14,7 +22,9 @@ class P:
         if c == '#':
             j = self.i + 1
             while j < len(self.s) and self.s[j] not in ',]}': j += 1
-            v = float(self.s[self.i + 1:j]); self.i = j; return ('num', v)
+            v = int(self.s[self.i + 1:j]); self.i = j; return ('int', v)
+        if c == 'D':
+            bits = int(self.s[self.i + 1:self.i + 17], 16); self.i += 17; return ('dbl', struct.unpack('<d', struct.pack('<Q', bits))[0])
         if c == 'F':
             bits = int(self.s[self.i + 1:self.i + 9], 16); self.i += 9; return ('flt', struct.unpack('<f', struct.pack('<I', bits))[0])
         if c == 's':
@@ -37,32 +47,69 @@ class P:
             self.i += 1; return out
         raise ValueError('pattern ' + self.s[self.i:])
 
-def same(v, e):
+def within(v, orig, digits):
+    """v agrees with orig to `digits` significant decimal digits (exact rational arithmetic, one ulp for the conversion)"""
+    if orig == 0: return v == 0
+    if v == orig: return True
+    a = abs(Fraction(orig))
+    E = Decimal(abs(orig)).adjusted()
+    bound = Fraction(10) ** (E - (digits - 1)) / 2 + a / 2 ** 52
+    if isinstance(v, float) and math.isnan(v): return False
+    # the k-digit rounding of the largest doubles lies above DBL_MAX: a correct conversion of that text is +-infinity
+    if isinstance(v, float) and math.isinf(v): return (v < 0) == (orig < 0) and a + bound > Fraction(sys.float_info.max)
+    return abs(Fraction(v) - Fraction(orig)) <= bound
+
+def same(v, e, simple):
     if isinstance(e, tuple):
         if isinstance(v, bool) or not isinstance(v, (int, float)): return False
-        if e[0] == 'num': return float(v) == e[1]
+        if e[0] == 'int': return v == e[1]
+        if e[0] == 'dbl':
+            if simple: return within(v, e[1], 15)
+            try: return float(v) == e[1]
+            except OverflowError: return False
+        if simple: return within(v, e[1], 7)
         try: return struct.unpack('<f', struct.pack('<f', float(v)))[0] == e[1]
         except OverflowError: return False
     if e is None or e is True or e is False: return v is e
     if isinstance(e, str): return isinstance(v, str) and v == e
-    if isinstance(e, list): return isinstance(v, list) and len(v) == len(e) and all(same(a, b) for a, b in zip(v, e))
-    if isinstance(e, dict): return isinstance(v, dict) and set(v) == set(e) and all(same(v[k], e[k]) for k in e)
+    if isinstance(e, list): return isinstance(v, list) and len(v) == len(e) and all(same(a, b, simple) for a, b in zip(v, e))
+    if isinstance(e, dict): return isinstance(v, dict) and set(v) == set(e) and all(same(v[k], e[k], simple) for k in e)
     return False
 
-n = bad = 0
-for fn in sys.argv[1:]:
-    for line in open(fn, 'rb'):
-        h, _, pat = line.rstrip(b'\n').partition(b'\t')
-        n += 1
-        try:
-            text = binascii.unhexlify(h).decode('utf-8')
-            v = json.loads(text, parse_constant=fail)
-        except Exception as ex:
-            bad += 1
-            if bad <= 200: print('BAD %s rejected: %s' % (h.decode(), str(ex)[:80]))
-            continue
-        if not same(v, P(pat.decode()).parse()):
-            bad += 1
-            if bad <= 200: print('BAD %s value differs from %s' % (h.decode(), pat.decode()[:200]))
-print('checked %d bad %d' % (n, bad))
-sys.exit(0 if bad == 0 else 1)
+def short(h): return h if len(h) <= 600 else h[:300] + '...' + h[-280:]
+
+def one_file(fn):
+    n = bad = 0; lines = []
+    with open(fn, 'rb') as f:
+        for line in f:
+            parts = line.rstrip(b'\n').split(b'\t')
+            h, pat, flag, label = parts[0], parts[1], parts[2].decode(), parts[3].decode('latin-1')
+            if flag not in ('E', 'S'): raise ValueError('flag ' + flag)
+            n += 1
+            try:
+                text = binascii.unhexlify(h).decode('utf-8')
+                v = json.loads(text, parse_constant=fail)
+            except Exception as ex:
+                bad += 1
+                if len(lines) < 200: lines.append('BAD %s\trejected: %s text=%s' % (label, str(ex)[:80], short(h.decode())))
+                continue
+            if not same(v, P(pat.decode()).parse(), flag == 'S'):
+                bad += 1
+                if len(lines) < 200: lines.append('BAD %s\tvalue differs from %s text=%s' % (label, pat.decode()[:200], short(h.decode())))
+    return n, bad, lines
+
+def main():
+    args = sys.argv[1:]
+    if args[:1] == ['--list']: files = [l.rstrip('\n') for l in open(args[1]) if l.strip()]
+    else: files = args
+    if len(files) > 1:
+        import multiprocessing
+        with multiprocessing.Pool(min(len(files), os.cpu_count() or 1, 16)) as pool: res = pool.map(one_file, files, 1)
+    else: res = [one_file(f) for f in files]
+    n = sum(r[0] for r in res); bad = sum(r[1] for r in res)
+    for l in [l for r in res for l in r[2]][:200]: print(l)
+    print('checked %d bad %d' % (n, bad))
+    sys.exit(0 if bad == 0 else 1)
+
+if __name__ == '__main__':
+    main()
